@@ -34,6 +34,12 @@ func (s *sut) readable(root int) bool {
 func runRecord(tracePath, worldPath string, seed int64, nhist, nsteps, cleans int, sum *tl.Summary) {
 	r := tl.Rand(seed)
 	w, _ := randomScenarioN(r, 10+r.Intn(5), 25, 400, 5+r.Intn(5), 3+r.Intn(3), 3)
+	if slotPadding > 0 {
+		// large storage values: a fixed history whose first state alone holds three large storage
+		// leaves, so that Commit of its root writes (and uncaches) in more than one batch
+		w = buildScenario(fatScenario)
+	}
+	multiBatch := 0
 	meta := metaSize()
 	b, _ := json.Marshal(w.json(meta))
 	if err := os.WriteFile(worldPath, b, 0o644); err != nil {
@@ -60,6 +66,10 @@ func runRecord(tracePath, worldPath string, seed int64, nhist, nsteps, cleans in
 		for i := 0; i < nsteps; i++ {
 			var a action
 			switch c := r.Intn(20); {
+			case slotPadding > 0 && i == 0: // (large values) every history starts by building the first state ...
+				a = action{Op: "Update", V: 1}
+			case slotPadding > 0 && i == 1: // ... and committing it while all of it is cached
+				a = action{Op: "Commit", R: rootOf(1)}
 			case c < 7: // build a state
 				var cand []int
 				for v := range w.versions {
@@ -137,6 +147,33 @@ func runRecord(tracePath, worldPath string, seed int64, nhist, nsteps, cleans in
 				sortInts(cand)
 				a = action{Op: "Commit", R: cand[r.Intn(len(cand))]}
 			}
+			if a.Op == "Commit" {
+				// bytes this commit writes: cached nodes reachable from the root through cached nodes
+				before, _ := s.project()
+				cached := map[int]bool{}
+				for _, e := range before.D {
+					cached[e.ID] = true
+				}
+				bytes, seen := 0, map[int]bool{}
+				var walk func(int)
+				walk = func(n int) {
+					if n == 0 || seen[n] || !cached[n] {
+						return
+					}
+					seen[n] = true
+					bytes += common.HashLength + len(w.store.nodes[w.hashes[n-1]])
+					for _, c := range w.kids[n-1] {
+						walk(c)
+					}
+					for c := range w.ext[n-1] {
+						walk(c)
+					}
+				}
+				walk(a.R)
+				if bytes > 100*1024 {
+					multiBatch++
+				}
+			}
 			if err := s.apply(a); err != nil {
 				sum.Violate(fmt.Sprintf("%s returned error %v", actStr(a), err), tl.M{"history": h, "step": i})
 				return
@@ -176,6 +213,7 @@ func runRecord(tracePath, worldPath string, seed int64, nhist, nsteps, cleans in
 		}
 	}
 	sum.Steps = tr.N
+	sum.Extra["commits_spanning_batches"] = multiBatch
 	sum.Rule = fmt.Sprintf("random client histories over a world of %d nodes / %d versions built from real tries; every database call is logged with the full white-box state; distinct = distinct operation sequences", len(w.hashes), len(w.versions))
 }
 
